@@ -31,6 +31,7 @@ type c10Script struct {
 	faulty  bool
 	writers int  // plugin starts this many writer goroutines in OnEstablished
 	second  bool // add an Established by-stander peer P2
+	burst   int  // number of simultaneous inbound connections (default 1)
 }
 
 func remoteHandshakeStay(w *world.World, r *world.Remote) {
@@ -89,6 +90,8 @@ var c10Scripts = []c10Script{
 	{name: "damping", dial: acceptWith(remoteBadOpen), faulty: true},
 	{name: "writers", dial: acceptWith(remoteHandshakeStay), writers: 2},
 	{name: "two-peers", dial: acceptWith(remoteHandshakeStay), second: true},
+	// two inbound connections of the same peer at the same instant (at most one is served; both must be closed at shutdown)
+	{name: "in-burst", passive: true, inbound: true, burst: 2, in: remoteHandshakeStay},
 	// first session ends by the remote's FIN while plugin goroutines write, then corebgp reconnects
 	{name: "reconnect-writers", writers: 2, dial: func(w *world.World, att int) vnet.DialOutcome {
 		if att > 1 {
@@ -176,15 +179,24 @@ func c10Run(p c10Params, ch vrt.Chooser, trace bool) (*world.World, *vrt.Exec, *
 		}
 		w.Serve(libAddr)
 		if sc.inbound {
-			vrt.GoWorld("remote-in", func() {
-				c, err := w.NW.DialIn("10.0.0.2:40001", libAddr)
-				if err != nil {
-					return
+			n := sc.burst
+			if n < 1 {
+				n = 1
+			}
+			var conns []*vnet.Conn
+			for i := 0; i < n; i++ {
+				if c, err := w.NW.DialIn(fmt.Sprintf("10.0.0.2:%d", 40001+i), libAddr); err == nil {
+					conns = append(conns, c)
 				}
-				r := w.NewRemote(c, "P1")
-				sc.in(w, r)
-				r.Finish()
-			})
+			}
+			for i, c := range conns {
+				c := c
+				vrt.GoWorld(fmt.Sprintf("remote-in%d", i), func() {
+					r := w.NewRemote(c, "P1")
+					sc.in(w, r)
+					r.Finish()
+				})
+			}
 		}
 		if sc.second {
 			vrt.GoWorld("remote-p2", func() {
